@@ -396,10 +396,13 @@ RootBox(e, border) == B(FloorQ(e.x1 - 4 * border), FloorQ(e.y1 - 4 * border), Ce
 \* items: [kind, box, counts]  - counts: whether the item contributes to E
 ItemKinds == {"rect", "circle", "line", "box", "text", "point", "defs", "shapetext", "gtrans", "gscale", "specs", "symbol",
               "usex", "usey", "usexy",     \* <use> of a shape kept in <defs>, offset by x and / or y
-              "polyline", "path", "nestedsvg", "gnested", "clip", "reuse"}
+              "polyline", "path", "nestedsvg", "gnested", "clip", "reuse",
+              \* the same rect rendered from inside a control element or a plain container
+              "inif", "inloop", "infor", "ing", "ina", "ifoff", "loop0"}
 ItemBoxes == {B(2, 6, 18, 14), B(-22, -9, -6, 7), B(40, 1, 47, 30)}
 Counts(k) == k \in {"rect", "circle", "line", "box", "text", "gtrans", "gscale", "shapetext", "usex", "usey", "usexy",
-                     "polyline", "path", "nestedsvg", "gnested", "clip", "reuse"}
+                     "polyline", "path", "nestedsvg", "gnested", "clip", "reuse", "inif", "inloop", "infor", "ing", "ina"}
+\* ("ifoff": inside <if test="0">, "loop0": inside <loop count="0"> - never rendered, adds nothing)
 \* the geometry an item contributes, given its base box
 Contribution(k, b) ==
     CASE k = "text" -> B(b.x1, b.y1, b.x1, b.y1)                       \* standalone text: its anchor point
